@@ -29,6 +29,7 @@ import PfVerif.Driver.CritTensor
 import PfVerif.Driver.Factory
 import PfVerif.Driver.FeatReg
 import PfVerif.Driver.GradMode
+import PfVerif.Driver.Listing
 namespace PfVerif.Driver
 open Lean
 
@@ -84,6 +85,7 @@ def dispatch (op : String) (j : Json) : R Json :=
   | "factory" => opFactory j
   | "feat_reg" => opFeatReg j
   | "grad_mode" => opGradMode j
+  | "listing" => opListing j
   | _ => .error s!"unknown op {op}"
 
 end PfVerif.Driver
